@@ -234,47 +234,60 @@ const unit = 70 * time.Millisecond
 func runChannelVec(rep *Report, v *Vec) {
 	rep.Runs++
 	ch := make(chan *eventlogger.Event)
-	cs, err := channel.NewChannelSink(ch, time.Duration(v.V.Timeout)*unit)
+	timeout := time.Duration(v.V.Timeout) * unit
+	cs, err := channel.NewChannelSink(ch, timeout)
 	if err != nil {
 		rep.mm(Mismatch{What: "NewChannelSink", Vector: v.V, Expected: "ok", Observed: err.Error()})
 		return
 	}
 	ctx, cancel := context.WithCancel(context.Background())
 	defer cancel()
+	// the instants at which things really happened are measured, so that scheduling delays of the
+	// harness itself never turn into a verdict: the admissible outcomes are derived from the measured instants
+	var tReady, tCancel atomic.Int64 // unix nanos, 0 = never
 	if v.V.Cancel == 0 {
 		cancel()
+		tCancel.Store(1)
 	} else if v.V.Cancel < 9 {
-		time.AfterFunc(time.Duration(v.V.Cancel)*unit, cancel)
+		time.AfterFunc(time.Duration(v.V.Cancel)*unit, func() { tCancel.Store(time.Now().UnixNano()); cancel() })
 	}
 	var received atomic.Pointer[eventlogger.Event]
 	stopRecv := make(chan struct{})
 	recvDone := make(chan struct{})
+	parked := make(chan struct{})
 	go func() {
 		defer close(recvDone)
 		if v.V.Ready >= 9 {
+			close(parked)
 			<-stopRecv
 			return
 		}
-		select {
-		case <-time.After(time.Duration(v.V.Ready) * unit):
-		case <-stopRecv:
-			return
+		if v.V.Ready > 0 {
+			close(parked)
+			select {
+			case <-time.After(time.Duration(v.V.Ready) * unit):
+			case <-stopRecv:
+				return
+			}
+			tReady.Store(time.Now().UnixNano())
+		} else {
+			tReady.Store(1)
+			close(parked)
 		}
-		// from now on the channel is ready for as long as the test runs
 		select {
 		case e := <-ch:
 			received.Store(e)
 		case <-stopRecv:
 		}
 	}()
+	<-parked
 	if v.V.Ready == 0 {
-		time.Sleep(5 * time.Millisecond) // let the receiver park
+		time.Sleep(5 * time.Millisecond) // let the receiver reach its receive
 	}
 	e := &eventlogger.Event{Type: "t", Payload: "p"}
 	t0 := time.Now()
 	out, perr := cs.Process(ctx, e)
 	el := time.Since(t0)
-	// anything still in flight must show up quickly; then stop the receiver
 	time.Sleep(15 * time.Millisecond)
 	close(stopRecv)
 	<-recvDone
@@ -302,17 +315,36 @@ func runChannelVec(rep *Report, v *Vec) {
 	if out != nil {
 		rep.mm(Mismatch{What: "a sink returned an event", Vector: v.V, Expected: nil, Observed: "event"})
 	}
-	ok := false
-	for _, a := range v.Exp.Allowed {
-		if a == outcome {
-			ok = true
+	// measured instants relative to the call
+	const never = time.Duration(1 << 60)
+	rel := func(a *atomic.Int64) time.Duration {
+		switch n := a.Load(); n {
+		case 0:
+			return never
+		case 1:
+			return 0
+		default:
+			if d := time.Unix(0, n).Sub(t0); d > 0 {
+				return d
+			}
+			return 0
 		}
 	}
-	if !ok {
-		rep.mm(Mismatch{What: "outcome of ChannelSink.Process", Vector: v.V, Expected: v.Exp.Allowed, Observed: outcome})
+	d, c := rel(&tReady), rel(&tCancel)
+	m := timeout
+	if d < m {
+		m = d
+	}
+	if c < m {
+		m = c
+	}
+	const tol = 30 * time.Millisecond
+	allowed := map[string]bool{"delivered": d <= m+tol, "ctx": c <= m+tol, "timeout": timeout <= m+tol}
+	if !allowed[outcome] {
+		rep.mm(Mismatch{What: "outcome of ChannelSink.Process", Vector: v.V, Expected: fmt.Sprintf("model %v; measured ready=%v cancel=%v timeout=%v", v.Exp.Allowed, d, c, timeout), Observed: outcome})
 		return
 	}
-	if limit := time.Duration(v.Exp.By)*unit + 45*time.Millisecond; el > limit {
+	if limit := m + tol + 30*time.Millisecond; el > limit && c != never || el > timeout+tol+30*time.Millisecond {
 		rep.mm(Mismatch{What: "ChannelSink.Process blocked longer than the shorter of timeout and context", Vector: v.V, Expected: limit.String(), Observed: el.String()})
 	}
 }
